@@ -226,6 +226,18 @@ fn gen_case(rng: &mut Prng) -> Value {
         "allow_log": rng.chance(1, 2),
         "ct": if allow_html || rng.chance(1, 2) { json!("text/plain") } else { Value::Null },
         "via": via,
+        "mixed": (0..rng.range(2, 8)).map(|_| {
+            let c = *rng.pick(RESPONSE_CODES);
+            match rng.below(9) {
+                0 | 1 => json!({"op":"status","c":c}),
+                2 | 3 => json!({"op":"headers","c":c}),
+                4 => json!({"op":"body","c":c}),
+                5 | 6 => json!({"op":"log","c":c}),
+                7 => json!({"op":"status","c":0}),
+                _ => json!({"op":"final","c":c,"fb": *rng.pick(RESPONSE_CODES)}),
+            }
+        }).collect::<Vec<Value>>(),
+        "backend": *rng.pick(&[200u64, 200, 404, 301, 410, 500, 302]),
     })
 }
 
@@ -885,8 +897,81 @@ fn run(case: &Value) -> Obs {
         let contains: Vec<bool> = ids_probe.iter().map(|id| tr.rule_ids_contains(id)).collect();
         per_code.push(json!({"c": c, "ops": out, "ut": {"pre": pre, "post": post, "diff": diff, "contains": contains}}));
     }
+    // ONE action, a response code per call (review A, C05-2): a generated mixed sequence, and the proxy order
+    // get_status_code(0) [; get_status_code(backend)] ; filter_headers ; create_filter_body ; should_log_request(final)
+    let mut run_one = |a: &mut Action, name: &str, c: u16, fb: u16| -> Value {
+        let r: Value = match name {
+            "status" => json!(a.get_status_code(c, None)),
+            "headers" => {
+                let hs = a.filter_headers(headers.clone(), c, true, None);
+                Value::Array(hs.iter().map(|h| json!([h.name, h.value])).collect())
+            }
+            "body" => match a.create_filter_body(c, &resp_headers) {
+                None => Value::Null,
+                Some(mut f) => {
+                    let kinds = f.verif_chain_kinds();
+                    let mut o = f.filter(body.clone().into_bytes(), None);
+                    o.extend(f.end(None));
+                    json!({"kinds": kinds, "out": String::from_utf8_lossy(&o).to_string()})
+                }
+            },
+            "log" => json!(a.should_log_request(allow_log, c, None)),
+            _ => {
+                let mut trace = UnitTrace::default();
+                let (s1, s2) = a.get_final_status_code_with_fallback(c, fb, &mut trace);
+                json!([s1, s2])
+            }
+        };
+        let ids: Vec<String> = a.get_applied_rule_ids().iter().cloned().collect();
+        json!({"op": name, "c": c, "r": r, "ids": ids})
+    };
+    let mut mixed_obs = Vec::new();
+    {
+        let mut a = action.clone();
+        for o in case.get("mixed").and_then(|m| m.as_array()).map(|a| a.as_slice()).unwrap_or(&[]) {
+            let name = match o.get("op").and_then(|x| x.as_str()) {
+                Some(n @ ("status" | "headers" | "body" | "log" | "final")) => n,
+                _ => return Obs::invalid("mixed op"),
+            };
+            let c = match o.get("c").and_then(u16_of) {
+                Some(c) => c,
+                None => return Obs::invalid("mixed code"),
+            };
+            let fb = if name == "final" {
+                match o.get("fb").and_then(u16_of) {
+                    Some(f) => f,
+                    None => return Obs::invalid("mixed fb"),
+                }
+            } else {
+                0
+            };
+            mixed_obs.push(run_one(&mut a, name, c, fb));
+        }
+    }
+    let mut proxy_obs = Vec::new();
+    if let Some(backend) = case.get("backend") {
+        let backend = match u16_of(backend) {
+            Some(b) => b,
+            None => return Obs::invalid("backend"),
+        };
+        let mut a = action.clone();
+        let first = run_one(&mut a, "status", 0, 0);
+        let s0 = first["r"].as_u64().unwrap() as u16;
+        proxy_obs.push(first);
+        let (final_code, backend2) = if s0 != 0 {
+            (s0, s0)
+        } else {
+            let second = run_one(&mut a, "status", backend, 0);
+            let s1 = second["r"].as_u64().unwrap() as u16;
+            proxy_obs.push(second);
+            (s1, backend)
+        };
+        proxy_obs.push(run_one(&mut a, "headers", backend2, 0));
+        proxy_obs.push(run_one(&mut a, "body", backend2, 0));
+        proxy_obs.push(run_one(&mut a, "log", final_code, 0));
+    }
     let traced = !trace_obs.is_null();
-    let mut o = Obs::new(json!({"action": action_json, "codes": per_code, "trace": trace_obs, "ut0": canon_trace(&base_trace)})).trivial(n_rules < 2);
+    let mut o = Obs::new(json!({"action": action_json, "codes": per_code, "trace": trace_obs, "ut0": canon_trace(&base_trace), "mixed": mixed_obs, "proxy": proxy_obs})).trivial(n_rules < 2);
     if traced {
         o.tags.push("action-trace".to_string());
     }
